@@ -181,7 +181,7 @@ fn client_server(d: &Draw, w: &Arc<World>, sandbox: &Sandbox, prop: &'static str
     boot_server(w, &srv).expect("server config");
     let result = spawn_client(w, &plan);
     if let Some((bp, at)) = bystander {
-        w.start_peer_at(bp, at + 10 * MS);
+        w.start_peer_at(bp, at);
     }
     CsSetup { desc: desc.clone(), mon: CsMon { upload, expect_refusal: refusal != 0, content: data, server_path, client_path, client_dir: cli_dir, result, probes: Default::default(), desc } }
 }
